@@ -35,6 +35,8 @@ Fails(r) ==
                    /\ opt[1].ttlhi = s.xhi * 256 /\ opt[1].ttllo = 0 /\ opt[1].rdata = <<>>)
      /\ (~s.edns => s.xhi = 0 \/ TRUE))
   \cup Chk("C13", PointersOk(r.msg, disabled))
+  \cup Chk("C13", /\ NamesMatch(SecOf(s, 0), d.an) /\ NamesMatch(SecOf(s, 1), d.ns)
+                  /\ NamesMatch(SecOf(s, 2), SelectSeq(d.ar, LAMBDA x : x.type # 41)))
 
 VARIABLES l, bad, nbad
 Init == l = 1 /\ bad = <<>> /\ nbad = 0
